@@ -158,9 +158,10 @@ def judge_loader(d):
     with warnings.catch_warnings():
         warnings.simplefilter("ignore")
         if d["route"] == "group":
-            gm = marr if mk == "array" else None
-            res = loader.groupby("g").fsc(mask=gm, seed=seed, n_set=n_set, dfreq=dfreq or 0.05)
-            res2 = loader.groupby("g").fsc(mask=gm, seed=seed, n_set=n_set, dfreq=dfreq or 0.05)
+            gm = marr if mk in ("array", "provider") else None
+            garg = mask if mk == "provider" else gm
+            res = loader.groupby("g").fsc(mask=garg, seed=seed, n_set=n_set, dfreq=dfreq or 0.05)
+            res2 = loader.groupby("g").fsc(mask=garg, seed=seed, n_set=n_set, dfreq=dfreq or 0.05)
             halves = loader.groupby("g").average_split(n_set=n_set, seed=seed, squeeze=False)
             for key, df in res.items():
                 if not df.equals(res2[key]):
